@@ -473,6 +473,8 @@ def _(p):
     n = mc.NROWS
     d1 = mc.full_frame(_A_TRAIN, _B_TRAIN)
     d2 = mc.full_frame([v * 1.5 + 2 for v in _B_TRAIN], [v - 3 for v in _A_TRAIN], a_rows=list(reversed(mc.A_ROWS)))
+    d1["z"] = numpy.arange(n, dtype=float) + 0.5
+    d2["z"] = [numpy.nan if k in cc.Z_NULLS_D2 else 10.0 + k for k in range(n)]
 
     def same(u, v):
         u, v = float(u), float(v)
